@@ -300,6 +300,7 @@ type callRes struct {
 	items  int
 	alloc  uint64
 	leaked int
+	stuck  int
 	msg    string
 }
 
@@ -345,7 +346,10 @@ func (p *pool) run(w *worker, idx []int, blob []byte, timeout time.Duration, res
 				c := callRes{status: fs[1], msg: fs[5]}
 				c.items, _ = strconv.Atoi(fs[2])
 				c.alloc, _ = strconv.ParseUint(fs[3], 10, 64)
-				c.leaked, _ = strconv.Atoi(fs[4])
+				if l, st, ok := strings.Cut(fs[4], "/"); ok {
+					c.leaked, _ = strconv.Atoi(l)
+					c.stuck, _ = strconv.Atoi(st)
+				}
 				if i == -1 {
 					res.init = c
 				} else if i >= 0 && i < len(res.calls) {
@@ -649,6 +653,12 @@ func (s *searchState) record(g genLayer, res layerRes) {
 		case "panic", "crash", "hang":
 			fail(c.status, name, c)
 		case "ok", "err":
+			if c.stuck > 0 {
+				// Goroutines the call started are parked where nothing will wake
+				// them, after the call returned and its context was cancelled:
+				// one more for every layer served, for the life of the process.
+				fail("goroutine-leak", name, c)
+			}
 			if isPseudo(name) || s.race {
 				// The concurrent calls: allocation is the sum over all scanners
 				// (each was measured alone already); an answer that differs from
@@ -804,7 +814,7 @@ func (h *harness) searchJobs() []job {
 	}
 	// 4. generated layers; one in eight also goes through the concurrent calls
 	// (all of those with a symbolic link in directory position do)
-	for i, n := 0, h.cfg.N(1300, 24000); i < n; i++ {
+	for i, n := 0, h.cfg.N(1300, 20000); i < n; i++ {
 		jobs = append(jobs, job{func(r *hx.Rand) genLayer {
 			oo := o
 			oo.wellFormed = r.Chance(1, 12)
@@ -832,7 +842,7 @@ func (h *harness) searchJobs() []job {
 	// every seed), the thorough tier runs many more
 	{
 		const combos = 5 * 10 * 80 * 2 * 3
-		n := h.cfg.N(200, 6000)
+		n := h.cfg.N(200, 4000)
 		start := int(h.cfg.Seed%97) * 263
 		for i := 0; i < n; i++ {
 			k := (start + i*(combos/n+1)) % combos
